@@ -75,9 +75,9 @@ PROPS = {
         bounded_parts=[dict(what="FullLinkControl GPS Info longitude/latitude float scaling", bound="4000 random + boundary raw 25/24-bit words per run, seeded by VERIF_SEED", contract="FullLinkControl.gps_bounded")],
     ),
     "C04": dict(
-        level_text="Proof: (1) every PDU with a check field built from symbolic fields parses back with its indicator true (slot type, EMB, data header, PI header, short LC, confirmed blocks, HRNP); (2) slot type and EMB indicators equal Golay / QR codeword membership on ALL 2^20 / 2^16 received words, and the Golay / QR codes themselves have the advertised parameters (the C06 code contracts are part of this check); (3) for data headers (5 formats), PI header, short LC and confirmed data blocks (3 rates): every single inverted bit and every non-zero SYMBOLIC burst confined to a window of check-field width at a literal position (in transmitted codeword order), applied to a PDU built from symbolic fields, makes the parse raise, or the indicator false, or leaves every field value as sent; for the CRC-CCITT and CRC-8 protected PDUs also literal weight-2 and weight-3 patterns (both polynomials have the factor x+1 and a period above the word length); the HRNP checksum is proved equal to the ones-complement definition (C12 contract HRNP.verify_checksum).",
+        level_text="Proof: (1) every PDU with a check field built from symbolic fields parses back with its indicator true (slot type, EMB, data header, PI header, short LC, confirmed blocks, HRNP); (2) slot type and EMB indicators equal Golay / QR codeword membership on ALL 2^20 / 2^16 received words, and the Golay / QR codes themselves have the advertised parameters (the C06 code contracts are part of this check); (3) for data headers (5 formats), PI header, short LC and confirmed data blocks (3 rates): every single inverted bit and every non-zero SYMBOLIC burst confined to a window of check-field width at a literal position (in transmitted codeword order), applied to a PDU built from symbolic fields, makes the parse raise, or the indicator false, or leaves every field value as sent; for the CRC-CCITT and CRC-8 protected PDUs also literal weight-2 and weight-3 patterns (both polynomials have the factor x+1 and a period above the word length); the HRNP checksum is proved equal to the ones-complement definition (contract HRNP.verify_checksum.word_level).",
         level_note="Quick tier: every single-bit position, burst windows at every eighth position, two unaligned ones and the check-field boundary, 40 pairs + 40 triples per PDU kind (short LC: all pairs, 200 triples); thorough: every window start, all pairs, 2000 triples (short LC: all triples). Weight-2/3 detection is not claimed for the CRC-9 (its polynomial has no factor x+1). Four witness classes are recorded as known findings (in-band zero sentinels on received words that the repository's tests pin, CRC-32 = 0 treated as absent), each under its own obligation name, so the main obligations stay sharp.",
-        explanation="contracts SlotType/EmbeddedSignalling.from_bits.all_words, *.detects_corruption, parsed_back_*_ok clauses of the build_parse contracts, BlockCode.generate / check, HRNP.as_bytes / verify_checksum",
+        explanation="contracts SlotType/EmbeddedSignalling.from_bits.all_words, *.detects_corruption, parsed_back_*_ok clauses of the build_parse contracts, BlockCode.generate / check, HRNP.as_bytes, HRNP.verify_checksum.word_level",
     ),
     "C01": dict(
         level_text="Proof per (payload kind, data sync pattern) with symbolic colour code and symbolic payload fields: the library's own assembly idiom -> 33 octets -> Burst.from_bytes gives the same data type, colour code, sync pattern, payload bits and every payload attribute (typed view for rate blocks), identical re-serialisation, slot parity ok; all 2^216 vocoder payloads around each voice sync pattern, and around valid EMB (any cc / PI / LCSS) with any 32 embedded bits, survive parse-then-serialise bit for bit.",
@@ -128,9 +128,9 @@ PROPS = {
         assumptions=["secrets.token_bytes(4) never returns a value it returned before (holds with probability 1 - n*2^-32)"],
     ),
     "C12": dict(
-        level_text="Per-function contracts, proved for all field values per literal payload length: every implemented RRS (5), LP (2), TMP (8, with / without option field) and RCP (17) opcode built from symbolic in-range fields serialises to service octet | reliable flag, the opcode octets, a length field equal to the payload length in the protocol's endianness (RCP little, others big), the checksum of exactly opcode..payload, 0x03, len(p) = number of octets; HDAP.from_bytes gives equal fields and the same octets again. HRNP: header octets, length field = number of octets, checksum field = checksum of header + payload, parse back equal, checksum verifies - for nested real messages and for ANY nested message of 7 / 8 / 60 octets (T: up to 1000). HSTRP: header, type octet, 16-bit sn, option TLV chain with continuation bits for 0..3 options, nested frame, parse back equal. The two checksum loops are proved separately by loop cutting against independent arithmetic definitions (HDAP: c + sum = 0x32 mod 256 with an 8-bit ripple-carry spec; HRNP: 0xFFFF - (sum reduced modulo 65535), the carry folding `while` on an arbitrary sum in the reachable interval, by z3 integer arithmetic) and enter the frame contracts as stubs whose value is tied to its argument by a ghost record.",
+        level_text="Per-function contracts, proved for all field values per literal payload length: every implemented RRS (5), LP (2), TMP (8, with / without option field) and RCP (17) opcode built from symbolic in-range fields serialises to service octet | reliable flag, the opcode octets, a length field equal to the payload length in the protocol's endianness (RCP little, others big), the checksum of exactly opcode..payload, 0x03, len(p) = number of octets; HDAP.from_bytes gives equal fields and the same octets again. HRNP: header octets, length field = number of octets, checksum field = checksum of header + payload, parse back equal, checksum verifies - for nested real messages and for ANY nested message of 7 / 8 / 60 octets (T: up to 1000). HSTRP: header, type octet, 16-bit sn, option TLV chain with continuation bits for 0..3 options, nested frame, parse back equal. The two checksum functions are proved separately on WORD-LEVEL octets (every octet and header field an integer variable with its range, the whole function in linear integer arithmetic, z3; no loop is cut, payloads up to 300 (T: 1001) octets) against independent arithmetic definitions (HDAP: c + sum = 0x32 mod 256; HRNP: 0xFFFF - (word sum reduced modulo 65535, 0 only for 0)) and enter the frame contracts as stubs whose value is tied to its argument by a ghost record.",
         level_note="Bounded (native enumeration, never counted as proved): GPS text block (float formatting, strftime) on the grid the fixed-width fields can represent - one factor at a time plus 60 (T: 3000) seeded combinations - each also nested in an LP report frame; str -> UTF-16-LE text (8 seeded texts incl. CJK, surrogate pairs, 200 characters) with HRNP nesting. Literal lengths: text / short data 0, 6 (T: 0..300), option data none / 0 / 3 (T: ..64) octets. Precondition of the HSTRP contract: the option flag is set exactly when the option list is not empty (a set flag with an empty list has no representation; RRSDatagramProtocol.rrs_confirm builds such a frame - noted in DESIGN.md, outside the listed properties).",
-        explanation="contracts HDAP.as_bytes, HDAP.get_hdap_checksum, HRNP.as_bytes, HRNP.verify_checksum, HSTRP.as_bytes; bounded: GPSData.as_bytes, TextMessageProtocol.text_as_str",
+        explanation="contracts HDAP.as_bytes, HDAP.get_hdap_checksum.word_level, HRNP.as_bytes, HRNP.verify_checksum.word_level, HSTRP.as_bytes; bounded: GPSData.as_bytes, TextMessageProtocol.text_as_str",
         bounded_parts=["GPSData.as_bytes / from_bytes: literal values on the representable grid", "TextMessageProtocol text given as str: 8 seeded texts"],
         assumptions=["an HSTRP option flag is set exactly when the option list is not empty (in-range precondition)"],
     ),
